@@ -502,10 +502,11 @@ func (radius *RADIUS) SerializeTo(b gopacket.SerializeBuffer, opts gopacket.Seri
 	pos := radiusMinimumRecordSizeInBytes
 	for _, v := range radius.Attributes {
 		if opts.FixLengths {
-			v.Length, err = attributeValueLength(v.Value)
-			if err != nil {
-				return err
+			// the length octet counts the type and length octets too (RFC 2865, 5.)
+			if len(v.Value) > 255-radiusAttributesMinimumRecordSizeInBytes {
+				return fmt.Errorf("RADIUS attribute value length %d too long", len(v.Value))
 			}
+			v.Length = RADIUSAttributeLength(len(v.Value) + radiusAttributesMinimumRecordSizeInBytes)
 		}
 
 		data[pos] = byte(v.Type)
